@@ -1,7 +1,8 @@
 (* Proofs/C19EProofsWrap.v — Wrapper (and Series with nser = 1) as a written design: valid, inside the fragment, its
    exported package has every port of the inner instance on the same-named port of the wrapper and nothing else;
-   the bridge from Model/C19Series.v (the design carries exactly the connections the model of generators.py states);
-   and: what generators.py builds for series ports wider than one bit is not a valid design. *)
+   the bridge from Model/C19Series.v (the design carries exactly the connections the model of generators.py states, for
+   every width of the series ports); and: what the PINNED generators.py built for series ports wider than one bit (private
+   bus of width n-1; repaired by fixes/C19W-1) is not a valid design. *)
 Require Import Hdl21.Base.PyInt Hdl21.Spec.PySlice Hdl21.Model.Slice Hdl21.Model.Resolve Hdl21.Base.Design
                Hdl21.Spec.Nets Hdl21.Spec.WfDesign Hdl21.Spec.C01ENets Hdl21.Base.Package Hdl21.Base.PrimTable
                Hdl21.Model.C01EElab Hdl21.Model.C01FElab Hdl21.Spec.C01FNets
@@ -122,9 +123,16 @@ Definition named (mn dev : name) (m : module) : module :=
 Lemma series_design_w1 nm io a b n : series_design nm io a b 1 n = series_design_code nm io a b n.
 Proof. unfold series_design, series_design_code. rewrite Z.mul_1_r. reflexivity. Qed.
 
-Lemma series_design_named u a b n iname uname mn dev :
+(* the design of the repaired code IS the module of Model/C19Series.v, for every width of the series ports *)
+Lemma series_design_named u a b w n iname uname mn dev :
+  series_design {| sn_mod := mn; sn_dev := dev; sn_i := iname; sn_units := uname |} (unit_io u) a b w n
+  = {| d_mods := [named mn dev (series_module u a b w n iname uname)]; d_top := 0%nat |}.
+Proof. reflexivity. Qed.
+
+(* the design of the pinned code is the module of the pinned model *)
+Lemma series_design_code_named u a b n iname uname mn dev :
   series_design_code {| sn_mod := mn; sn_dev := dev; sn_i := iname; sn_units := uname |} (unit_io u) a b n
-  = {| d_mods := [named mn dev (series_module u a b n iname uname)]; d_top := 0%nat |}.
+  = {| d_mods := [named mn dev (series_module_pinned u a b n iname uname)]; d_top := 0%nat |}.
 Proof. reflexivity. Qed.
 
 Lemma wrapper_design_named u iname mn dev :
@@ -138,34 +146,34 @@ Proof.
   apply String.eqb_neq. exact H1.
 Qed.
 
-Theorem series_design_is_model u a b n mn dev : wf_unit u = true -> 2 <= n -> a <> b ->
-  assoc a (u_sigs u) = Some 1 -> assoc b (u_sigs u) = Some 1 -> mn <> "" ->
+Theorem series_design_is_model u a b w n mn dev : wf_unit u = true -> 2 <= n -> a <> b ->
+  assoc a (u_sigs u) = Some w -> assoc b (u_sigs u) = Some w -> mn <> "" ->
   exists iname uname,
     let nm := {| sn_mod := mn; sn_dev := dev; sn_i := iname; sn_units := uname |} in
-    series_gen u a b n = Ok (series_module u a b n iname uname) /\
-    series_design nm (unit_io u) a b 1 n = {| d_mods := [named mn dev (series_module u a b n iname uname)]; d_top := 0%nat |} /\
-    (mem uname (map fst (unit_io u)) = false -> series_ok nm (unit_io u) a b 1 n = true) /\
-    (u_buns u = [] -> series_ok nm (unit_io u) a b 1 n = true).
+    series_gen u a b n = Ok (series_module u a b w n iname uname) /\
+    series_design nm (unit_io u) a b w n = {| d_mods := [named mn dev (series_module u a b w n iname uname)]; d_top := 0%nat |} /\
+    (mem uname (map fst (unit_io u)) = false -> series_ok nm (unit_io u) a b w n = true) /\
+    (u_buns u = [] -> series_ok nm (unit_io u) a b w n = true).
 Proof.
-  intros Hwf Hn Hab Ha Hb Hmn. destruct (series_gen_valid u a b n 1 1 Hwf Hn Ha Hb) as [iname [uname [Hg [Hi [Hin Hun]]]]].
-  exists iname, uname. cbv zeta. split; [exact Hg|]. split; [rewrite series_design_w1; apply series_design_named|].
+  intros Hwf Hn Hab Ha Hb Hmn. destruct (series_gen_valid u a b n w w Hwf Hn Ha Hb) as [iname [uname [Hg [Hi [Hin Hun]]]]].
+  exists iname, uname. cbv zeta. split; [exact Hg|]. split; [apply series_design_named|].
   destruct (mem_cons_false _ _ _ Hun) as [Hui Hunames].
-  assert (mem uname (map fst (unit_io u)) = false -> series_ok {| sn_mod := mn; sn_dev := dev; sn_i := iname; sn_units := uname |} (unit_io u) a b 1 n = true) as G.
+  assert (mem uname (map fst (unit_io u)) = false -> series_ok {| sn_mod := mn; sn_dev := dev; sn_i := iname; sn_units := uname |} (unit_io u) a b w n = true) as G.
   { intros Huio. unfold series_ok. cbn [sn_mod sn_i sn_units].
     unfold wf_unit in Hwf. apply andb_prop in Hwf. destruct Hwf as [Hwf _]. apply andb_prop in Hwf. destruct Hwf as [Hwf _].
     apply andb_prop in Hwf. destruct Hwf as [Hwf _]. apply andb_prop in Hwf. destruct Hwf as [Hw Hnd].
     rewrite Hw, Hnd. cbn [andb].
     assert (String.eqb a b = false) as -> by (apply String.eqb_neq; exact Hab). cbn [negb andb].
-    assert (forall c, assoc c (u_sigs u) = Some 1 -> assoc c (unit_io u) = Some 1) as Hio.
-    { intros c Hc. apply (assoc_In_nodup (unit_io u) c 1 Hnd). unfold unit_io. apply in_or_app. left. apply assoc_In. exact Hc. }
-    rewrite (Hio a Ha), (Hio b Hb). cbn [Z.eqb Pos.eqb andb]. rewrite Hi, Huio. cbn [negb andb].
+    assert (forall c, assoc c (u_sigs u) = Some w -> assoc c (unit_io u) = Some w) as Hio.
+    { intros c Hc. apply (assoc_In_nodup (unit_io u) c w Hnd). unfold unit_io. apply in_or_app. left. apply assoc_In. exact Hc. }
+    rewrite (Hio a Ha), (Hio b Hb). rewrite Z.eqb_refl. cbn [andb]. rewrite Hi, Huio. cbn [negb andb].
     assert (String.eqb uname iname = false) as -> by (apply String.eqb_neq; exact Hui).
     assert (String.eqb mn "" = false) as -> by (apply String.eqb_neq; exact Hmn). cbn [negb andb]. lia. }
   split; [exact G|]. intros Hb0. apply G. unfold unit_io. rewrite Hb0. cbn [map concat]. rewrite app_nil_r.
   unfold unit_names in Hunames. rewrite Hb0 in Hunames. cbn [map] in Hunames. rewrite app_nil_r in Hunames. exact Hunames.
 Qed.
 
-(* ---------------- series ports wider than one bit: generators.py's module is not a valid design ---------------- *)
+(* ---------------- series ports wider than one bit: the module the PINNED generators.py built is not a valid design ---------------- *)
 Theorem series_code_wide_rejected nm io a b w n : series_ok nm io a b w n = true -> 2 <= w ->
   wf_design (series_design_code nm io a b n) <> Ok tt.
 Proof.
